@@ -74,7 +74,7 @@ def spec_for(est, rng, seed, tag):
     n, p = int(rng.integers(12, 36)), int(rng.integers(4, 12))
     if est == "GroupLasso":
         p = int(rng.choice([4, 6, 8, 12]))
-    storage = str(rng.choice(["dense", "csc", "float32", "csc_explicit0"])) \
+    storage = str(rng.choice(["dense", "csc", "float32", "csc_explicit0", "dense_F"])) \
         if est not in ("SqrtLasso", "IterativeReweightedL1", "MultiTaskLasso") else "dense"
     target = {"SparseLogisticRegression": "pm1", "LinearSVC": "pm1", "CoxEstimator": "surv", "MultiTaskLasso": "multi"}.get(est, "real")
     kw = dict(tol=1e-6)
@@ -91,7 +91,7 @@ def spec_for(est, rng, seed, tag):
         kw["C"] = 1.0
     if est == "CoxEstimator":
         kw.update(alpha=a, l1_ratio=0.7)
-        storage = "dense" if storage == "float32" else storage
+        storage = "dense_F" if storage == "float32" else storage
     if est == "GLE":
         kw.update(alpha=a, fit_intercept=True)
     if est == "SqrtLasso":
